@@ -98,7 +98,14 @@ def remoteTeardown (o : OSet) (ph : PhaseSpec) (w : World) : World × TRes :=
       else
         ({ setPhase w n none with phaseEvents := w.phaseEvents ++ [PhaseEvent.delete n none] }, .notDone)
 
-def remotes : Remotes := { recon := remoteReconcile, tear := remoteTeardown }
+/-- `objectSetRemotePhaseReconciler.SyncPaused` (fix C09-a): only an existing phase object is
+patched; nothing is created, no status is read. -/
+def remoteSyncPaused (o : OSet) (ph : PhaseSpec) (w : World) : World :=
+  match w.phases (phaseName o ph) with
+  | none => w
+  | some cur => (propagatePause o (phaseName o ph) cur w).1
+
+def remotes : Remotes := { recon := remoteReconcile, tear := remoteTeardown, sync := remoteSyncPaused }
 
 /-! ### The ObjectSetPhase controller -/
 
